@@ -641,3 +641,99 @@ def rule_trailing_pointer(ctx, files=None):
                                  "this function keeps `%s` as the trailing pointer at its other advance site(s): `%s` then designates a stale "
                                  "node and the wrong list element gets updated" % (cur, cur, fld, trail, cur, trail, trail))
     return n
+
+
+def _eval_guard(e, val):
+    """evaluate an integer/boolean expression tree under `val`, a function from a leaf node to an int (None = unknown)"""
+    from .facts import kind, strip, is_int, int_val
+    e = strip(e)
+    k = kind(e)
+    if k == "int":
+        return e[1]
+    if k in ("var", "mem"):
+        return val(e)
+    if k == "un" and e[1] == "!":
+        v = _eval_guard(e[2], val)
+        return None if v is None else int(not v)
+    if k == "bin":
+        a, b = _eval_guard(e[2], val), _eval_guard(e[3], val)
+        op = e[1]
+        if op == "&&":
+            if a == 0 or b == 0:
+                return 0
+            return None if a is None or b is None else 1
+        if op == "||":
+            if (a is not None and a != 0) or (b is not None and b != 0):
+                return 1
+            return None if a is None or b is None else 0
+        if a is None or b is None:
+            return None
+        return {"==": int(a == b), "!=": int(a != b), "<": int(a < b), "<=": int(a <= b), ">": int(a > b), ">=": int(a >= b), "+": a + b, "-": a - b, "*": a * b}.get(op)
+    return None
+
+
+WRITE_GUARD_CASES = [
+    # (coder position, bytes written, current length of the data set, must the write be refused?, what it is)
+    (10, 3, 10, False, "append at the end"),
+    (0, 10, 10, False, "rewrite of the whole data set from the start"),
+    (0, 12, 10, False, "rewrite from the start running past the end"),
+    (0, 4, 10, True, "rewrite of the first bytes only"),
+    (4, 3, 10, True, "write in the middle"),
+]
+
+
+def rule_coder_write_guard(ctx):
+    """WRITEGUARD (C04, C05): the stream coders (RLE, skipping Huffman, deflate, szip) cannot change bytes in the middle of an encoded
+    stream; their write routines promise to refuse everything but an append and a rewrite of at least the whole data set from its
+    start.  The guard expression of each of them is evaluated on five representative situations; it must refuse 'the first bytes
+    only' and 'in the middle' and admit the other three.  A guard that admits a short rewrite from the start re-encodes the head
+    of the stream in place and leaves the rest misaligned — every later value of the data set is garbage, with no error."""
+    from .codec import ast_walk
+    from .facts import kind, strip, walk, render, mem_field, calls_in
+    prog = ctx.prog
+    n = 0
+    for fn in ("HCPcrle_write", "HCPcskphuff_write", "HCPcdeflate_write"):  # szip is compiled out in this configuration
+        f = prog.func(fn)
+        if f is None:
+            if fn != "HCPcszip_write":
+                ctx.unrecognised("WRITEGUARD", "WRITEGUARD:%s" % fn, "-", "%s not found" % fn)
+            continue
+        guards = []
+
+        def vis(nn, st):
+            if nn[0] == "if" and not st.count and False:
+                pass
+            if nn[0] == "if":
+                flds = {y[2] for y in walk(nn[1], True) if y[0] == "mem"}
+                if "offset" in flds and "length" in flds:
+                    guards.append(nn)
+            return True
+        ast_walk(f.raw.get("ast"), vis)
+        if not guards:
+            ctx.unrecognised("WRITEGUARD", "WRITEGUARD:%s" % fn, f.where(), "no guard over the coder's offset and the data set's length found")
+            continue
+        g = guards[0]
+        n += 1
+        key = "WRITEGUARD:%s" % fn
+        wrong = []
+        for off, ln, tot, refuse, what in WRITE_GUARD_CASES:
+            def val(e, off=off, ln=ln, tot=tot):
+                if kind(e) == "var":
+                    return ln if e[1] == "length" else None
+                mf = mem_field(e)
+                if mf and mf[1] == "offset":
+                    return off
+                if mf and mf[1] == "length":
+                    return tot
+                return None
+            v = _eval_guard(g[1], val)
+            if v is None:
+                wrong.append("%s: not decidable from the expression" % what)
+            elif bool(v) != refuse:
+                wrong.append("%s is %s" % (what, "refused" if v else "admitted"))
+        if wrong:
+            ctx.violated("WRITEGUARD", key, f.where(g[4]), "the guard `%s` gets %s" % (render(g[1])[:90], "; ".join(wrong)))
+        else:
+            ctx.holds("WRITEGUARD", key, f.where(g[4]), "admits append and full rewrite, refuses partial rewrites", nontrivial=True)
+    ctx.floor("WRITEGUARD", 3, n, "(write guards of the stream coders)")
+    return n
